@@ -22,9 +22,11 @@ use qverif::{Ev, Model, Opts, Rng, catch};
 use quiver_compiler::ast::*;
 use serde_json::json;
 
-/// Generated and mutated inputs never nest parentheses deeper than this (known finding C18-F1: the
-/// real parser, and the model that mirrors it, take time exponential in that depth).
-const MAX_PAREN_DEPTH: usize = 5;
+/// Generated and mutated inputs never nest parentheses deeper than this. Since /repo 33df1c7 the
+/// parenthesised type forms are parsed once per level (stream `deep-type-parens` nests them 30-60
+/// deep); what is still exponential is nesting in the RECEIVE position of `(@t -> t)` (known finding,
+/// exhibited by `receive_nest_witness`), which the generator can produce, hence a cap.
+const MAX_PAREN_DEPTH: usize = 8;
 
 fn hx(s: &str) -> String {
     if s.is_empty() { "-".into() } else { qverif::hex(s.as_bytes()) }
@@ -657,6 +659,40 @@ fn mutate(r: &mut Rng, text: &str) -> (String, String) {
     (kind.to_string(), s)
 }
 
+/// Known finding (fifth exponential form, not repaired by 33df1c7): nesting in the RECEIVE position
+/// of a parenthesised process type, `(@(@(@'a -> 'r) -> 'r) -> 'r)`. The partial-type attempt reads
+/// the receive type through `type_definition`, fails at `->`, and `paren_process_type` reads it
+/// again: two parses per level. Exhibited by timing two depths four levels apart (factor 16).
+fn receive_nest_witness(ev: &mut Ev) {
+    let nest = |d: usize| {
+        let mut t = String::from("'a");
+        for _ in 0..d {
+            t = format!("(@{t} -> 'r)");
+        }
+        format!("'t = {t}")
+    };
+    let time = |src: &str| {
+        let t0 = std::time::Instant::now();
+        let _ = run_impl(src);
+        t0.elapsed().as_secs_f64()
+    };
+    let (lo, hi) = (11usize, 15usize);
+    let (a, b) = (time(&nest(lo)), time(&nest(hi)));
+    ev.case(&nest(hi), true);
+    ev.hit("types:stream:receive-nest-witness");
+    ev.set_extra("types_receive_nest_seconds", json!({"depth_11": a, "depth_15": b}));
+    if b > 8.0 * a && b > 0.02 {
+        ev.violation(
+            "types kind=exponential-parse-time cause=process-receive-nesting",
+            &format!("parse time doubles per level of `(@t -> t)` nesting in receive position: depth {lo} {a:.4} s, depth {hi} {b:.4} s (depth 30 would take days); valid input"),
+            json!({"source": nest(hi), "seconds_depth_11": a, "seconds_depth_15": b, "witness_that_times_out": nest(24)}),
+            true,
+        );
+    } else {
+        ev.hit("types:receive-nest-not-exponential");
+    }
+}
+
 // ---- entry point ------------------------------------------------------------------------------------
 
 pub fn part_types(ev: &mut Ev, model: &mut Model, opts: &Opts) {
@@ -679,6 +715,39 @@ pub fn part_types(ev: &mut Ev, model: &mut Model, opts: &Opts) {
             }
         }
     }
+
+    // deep nests of the four parenthesised type forms that 33df1c7 made linear: must answer at once
+    for (di, depth) in [30usize, 45, 60].into_iter().enumerate() {
+        for form in 0..5 {
+            let mut t = String::from("'a");
+            for level in 0..depth {
+                t = match if form == 4 { (level + di) % 4 } else { form } {
+                    0 => format!("({t})"),
+                    1 => format!("(#{t} -> 'b)"),
+                    2 => format!("({t} | 'c)"),
+                    _ => format!("({t}, y: 'b)"),
+                };
+            }
+            let src = format!("'t = {t}");
+            ev.case(&src, true);
+            ev.hit("types:stream:deep-type-parens");
+            let t0 = std::time::Instant::now();
+            let imp = run_impl(&src);
+            let ms = t0.elapsed().as_millis();
+            if ms > 2_000 || !matches!(imp, Impl::Ok { first_alias: Some(_), statements: 1 }) {
+                ev.violation(
+                    "types kind=deep-type-parens-slow-or-rejected",
+                    &format!("a valid type nested {depth} parentheses deep (form {form}) took {ms} ms and gave {}", format!("{imp:?}").chars().take(80).collect::<String>()),
+                    json!({"source": src, "ms": ms as u64, "depth": depth, "form": form}),
+                    true,
+                );
+            } else {
+                ev.hit("types:deep-type-parens-fast");
+                check_text(ev, model, "deep-type-parens", &src);
+            }
+        }
+    }
+    receive_nest_witness(ev);
 
     // (a) generated ASTs
     for i in 0..budget {
